@@ -154,7 +154,9 @@ def issue_list(text):
 
 
 def canon(line):
-    return CRASH_RE.sub(r"\1", line)
+    """crash by signal, uncaught exception and time-out all mean "did not return"; which one a runaway recursion
+    ends in depends on the machine's load"""
+    return CRASH_RE.sub("NORETURN", line).replace("TIMEOUT", "NORETURN")
 
 
 # ----------------------------------------------------------------------------------------------- known findings
@@ -270,6 +272,7 @@ def run_drivers(ctx, drv, mdl, table, cases, tag):
     table.write(tpath)
     nsh = min(vf.NCPU, max(1, len(cases) // 50))
     procs = []
+    env = dict(os.environ)
     for k in range(nsh):
         part = cases[k::nsh]
         cp = os.path.join(work, "cases.%d" % k)
@@ -278,18 +281,25 @@ def run_drivers(ctx, drv, mdl, table, cases, tag):
                 f.write(c.line() + "\n")
         sd = os.path.join(work, "fs.%d" % k)
         os.makedirs(sd)
-        pc = subprocess.Popen([drv, "run", tpath, cp, sd], stdout=subprocess.PIPE, stderr=subprocess.DEVNULL)
-        pm = subprocess.Popen([mdl, tpath, cp], stdout=subprocess.PIPE, stderr=subprocess.PIPE)
-        procs.append((part, pc, pm))
+        # outputs go to files: the shards must not stall on a full pipe while another one is being read
+        co = open(os.path.join(work, "impl.%d" % k), "wb")
+        mo = open(os.path.join(work, "model.%d" % k), "wb")
+        me = open(os.path.join(work, "model.%d.err" % k), "wb")
+        pc = subprocess.Popen([drv, "run", tpath, cp, sd], stdout=co, stderr=subprocess.DEVNULL)
+        pm = subprocess.Popen([mdl, tpath, cp], stdout=mo, stderr=me, env=env)
+        procs.append((k, part, pc, pm, co, mo, me))
     out = []
-    for part, pc, pm in procs:
-        co = pc.communicate()[0].decode("utf-8", "replace").split("\n")
-        mo, me = pm.communicate()
-        mo = mo.decode("utf-8", "replace").split("\n")
+    for k, part, pc, pm, co, mo, me in procs:
+        pc.wait()
+        pm.wait()
+        for fh in (co, mo, me):
+            fh.close()
         if pm.returncode != 0:
-            raise vf.BuildError("model driver failed: " + me.decode("utf-8", "replace")[-2000:])
+            raise vf.BuildError("model driver failed: " + open(os.path.join(work, "model.%d.err" % k)).read()[-2000:])
+        cl = open(os.path.join(work, "impl.%d" % k), encoding="utf-8", errors="replace").read().split("\n")
+        ml = open(os.path.join(work, "model.%d" % k), encoding="utf-8", errors="replace").read().split("\n")
         for i, c in enumerate(part):
-            out.append((c, co[i] if i < len(co) else "<missing>", mo[i] if i < len(mo) else "<missing>"))
+            out.append((c, cl[i] if i < len(cl) else "<missing>", ml[i] if i < len(ml) else "<missing>"))
     shutil.rmtree(work, ignore_errors=True)
     return out
 
@@ -301,10 +311,16 @@ def build_cases(ctx, table):
     nfiles, budget = (3, 4) if quick else (4, 5)
     graphs = ig.enumerate_graphs(nfiles, budget)
     resolvable = []
+    nskip = 0
     for n, g in enumerate(graphs):
+        t = ig.truth(g)
+        # a cycle among local units costs two stack exhaustions per case (finding C07-cyclic-local-units) and these
+        # graphs are a large share of the enumeration: 1 in 6 of them is run
+        if t.local_units_cycle and n % 6 != 0:
+            nskip += 1
+            continue
         cases.append(base_case(table, g, n % 2 == 0, "enum%d" % n))
         hist["base"] += 1
-        t = ig.truth(g)
         if t.resolvable and not t.file_revisit:
             resolvable.append((n, g))
     # single faults x repair on the resolvable graphs
@@ -338,7 +354,39 @@ def build_cases(ctx, table):
                 label, bad = rng.choice(faults)
                 cases.append(fault_case(table, g, bad, rng.random() < 0.5, "rand%d/%s" % (n, label)))
                 hist["fault"] += 1
+    hist["enumerated_with_local_units_cycle_not_run"] = nskip
     return cases, hist, (nfiles, budget, len(graphs), len(resolvable))
+
+
+def run_paths(ctx, drv, mdl):
+    """importer.cpp normalisePath / pathFromUrl / resolvePath against their transcription (the model proper uses a
+    flat directory; this ties the string functions that the flat reading abstracts)"""
+    rng = ctx.rng
+    alpha = ["a", "b", "/", "\\", ".", ":", "d/", "../"]
+    pairs = [("", ""), ("f.cellml", "/tmp/x/"), ("f.cellml", "/tmp/x"), ("sub/f.cellml", "/tmp/x/"), ("..\\f.cellml", "C:\\m\\")]
+    for n in range(0, 4):
+        import itertools
+        for t in itertools.product(alpha[:6], repeat=n):
+            pairs.append(("".join(t), "".join(reversed(t))))
+    for _ in range(2000 if ctx.quick() else 40000):
+        pairs.append(("".join(rng.choice(alpha) for _ in range(rng.randint(0, 7))),
+                      "".join(rng.choice(alpha) for _ in range(rng.randint(0, 7)))))
+    cf = os.path.join(ctx.workdir, "paths.cases")
+    with open(cf, "w") as f:
+        for u, b in pairs:
+            f.write("%s %s\n" % (u.encode().hex(), b.encode().hex()))
+    cl = vf.sh([drv, "paths", cf], timeout=600)[1].split("\n")
+    ml = vf.sh([mdl, "paths", cf], timeout=600)[1].split("\n")
+    nbad = 0
+    for i, (u, b) in enumerate(pairs):
+        c = cl[i] if i < len(cl) else "<missing>"
+        m = ml[i] if i < len(ml) else "<missing>"
+        if c != m and nbad < 2:
+            nbad += 1
+            ctx.violation("C07 paths: url=%r base=%r: implementation and model disagree" % (u, b), "paths_%d.json" % nbad,
+                          {"mode": "paths", "url": u, "base": b, "impl": c, "model": m})
+    os.remove(cf)
+    return len(pairs)
 
 
 def run(ctx):
@@ -363,6 +411,9 @@ def run(ctx):
             ((len(cases), hist) + enum_info))
     results = run_drivers(ctx, drv, mdl, table, cases, "run")
     evaluate(ctx, results, hist, enum_info, table)
+    npaths = run_paths(ctx, drv, mdl)
+    ctx.cov["evaluations"] += npaths
+    ctx.cov["input_distribution"]["path_string_cases"] = npaths
 
 
 def evaluate(ctx, results, hist, enum_info, table):
@@ -440,7 +491,8 @@ def evaluate(ctx, results, hist, enum_info, table):
     ctx.cov["exhaustive"] = True
     ctx.cov["rule"] = ("every import graph reachable from the origin file with <= %d files and <= %d defined entities "
                        "(<= 2 names per kind and file, <= 2 unit references; %d graphs after removing renamings, enumerated "
-                       "completely; %d of them resolvable) is run as: write files, new Importer, parse origin, resolveImports, "
+                       "completely; %d of them resolvable; of those with a cycle among local units -- finding "
+                       "C07-cyclic-local-units, two stack exhaustions per case -- every sixth is run) is run as: write files, new Importer, parse origin, resolveImports, "
                        "hasUnresolvedImports, flattenModel, resolveImports again; every resolvable one additionally under every "
                        "single fault (file missing, truncated at 4 prefix classes, non-CellML XML, entity removed, parser error on "
                        "an entity, each back edge) followed by repair and re-resolution on the same importer, after "
@@ -458,6 +510,12 @@ def replay(ctx, path):
     build = vf.build_repo("plain")
     drv = vf.compile_driver(build, os.path.join(vf.ROOT, "harness/c07_driver.cpp"))
     mdl = vf.ocaml_driver("import")
+    if r.get("mode") == "paths":
+        cf = os.path.join(ctx.workdir, "replay.paths")
+        open(cf, "w").write("%s %s\n" % (r["url"].encode().hex(), r["base"].encode().hex()))
+        print("impl :", vf.sh([drv, "paths", cf])[1].strip())
+        print("model:", vf.sh([mdl, "paths", cf])[1].strip())
+        return
     work = os.path.join(ctx.workdir, "replay")
     shutil.rmtree(work, ignore_errors=True)
     os.makedirs(os.path.join(work, "fs"))
